@@ -17,6 +17,7 @@ a_buf *a_buf_new(a_size siz, a_size num)
 {
     a_buf *ctx;
     if (!siz) { siz = 1; }
+    if (num > (A_SIZE_MAX - sizeof(a_buf)) / siz) { return A_NULL; } /* size in bytes not representable */
     ctx = (a_buf *)a_alloc(A_NULL, sizeof(a_buf) + siz * num);
     if (ctx) { a_buf_ctor(ctx, siz, num); }
     return ctx;
@@ -47,6 +48,7 @@ void a_buf_dtor(void *ctx, void (*dtor)(void *))
 
 a_buf *a_buf_setm(a_buf *ctx, a_size mem)
 {
+    if (mem > (A_SIZE_MAX - sizeof(a_buf)) / ctx->siz_) { return A_NULL; } /* size in bytes not representable */
     ctx = (a_buf *)a_alloc(ctx, sizeof(a_buf) + ctx->siz_ * mem);
     if (ctx) { ctx->mem_ = mem; }
     return ctx;
